@@ -141,3 +141,47 @@ def install_ro_inspect():
 
 
 install_ro_inspect()
+
+
+# ------------------------------------------------------------------ MosFile.xml / MosElement.xml / MosElement.__str__
+def _xml_ens(self, cx, ex):
+    v = ex.value
+    return [('C14+C18.xml_is_the_stored_document_root_itself', v.t == self.root(cx) if isinstance(v, SNode) else z3.BoolVal(False)),
+            ('C14+C18.reading_xml_changes_no_field_of_the_object',
+             A(*[_same_field(ex.st.fields(cx.a['self']).get(k), f) for k, f in cx.st.fields(cx.a['self']).items()]))]
+
+
+def _same_field(a, b):
+    if a is b:
+        return z3.BoolVal(True)
+    if a is None or type(a) is not type(b):
+        return z3.BoolVal(False)
+    if hasattr(a, 't') and hasattr(b, 't'):
+        return a.t == b.t
+    return z3.BoolVal(a is b)
+
+
+regenv('mosromgr.mostypes.MosFile.xml', _xml_ens, _never('C14.xml'), props=('C14', 'C18', 'C15'))
+
+
+def install_element_xml():
+    from .moselements import regprop
+
+    def ens(self, cx, ex):
+        v = ex.value
+        s = cx.st.fields(cx.a['self'])['_xml'].t
+        return [('C15.element_xml_is_the_element_the_object_was_built_on', v.t == s if isinstance(v, SNode) else z3.BoolVal(False))]
+
+    regprop('mosromgr.moselements.MosElement.xml', ens, props=('C15', 'C17'))
+
+    def str_ens(self, cx, ex):
+        v = ex.value
+        s = cx.st.fields(cx.a['self'])['_xml'].t
+        H = cx.H
+        want = L.mkfun('xml_tostring_%d_%d' % (H.kv, H.tv), Node, Str)(s)
+        return [('C15.element_str_is_the_serialisation_of_its_own_element', v.t == want if isinstance(v, SStr) else z3.BoolVal(False))]
+
+    regprop('mosromgr.moselements.MosElement.__str__', str_ens, props=('C15',))
+
+
+install_element_xml()
